@@ -32,18 +32,19 @@ Norm(v) == IF v.t # "arr" THEN v ELSE Arr([i \in 1..Len(v.a) |-> Norm(v.a[i])], 
 
 UScalar == { Myst, Null, Bool(TRUE), Bool(FALSE),
              IntV(0), NZero, IntV(1), IntV(-1), IntV(2), Fin(32), Fin(-96), Fin(160),
-             Huge, NHuge, NaN, PInf, NInf,
+             Huge, NHuge, NaN, PInf, NInf, Tiny(1, TinyText), Tiny(-1, TinyText),
              Str(""), Str("a"), Str("b"), Str("ab"), Str("0"), Str("1"), Str(" 1"), Str("1.5"), Str("-0"),
              Str("nan"), Str("inf"), Str("true"), Str("2") }
 UArr    == { EmptyArr, A1, A12, A21, AA1, AD, AN, AS }
 UMore   == { Big(1, "2147483648"), Big(1, "4294967361"), Big(-1, "4294967230"), Big(1, "9007199254740992"),
              IntV(65), IntV(233), IntV(1114111), IntV(1114112), IntV(55296), Fin(4192),
-             Str("1e1"), Str("Infinity"), Str("+1"), Str("1."), Str(".5"), Str("0.1"), Str("a,b"), Str("~a") }
+             Str("1e1"), Str("Infinity"), Str("+1"), Str("1."), Str(".5"), Str("0.1"), Str("a,b"), Str("~a"),
+             Tiny(1, "0.001"), Str("0.0000000000000001"), Str("-0.001") }
 U       == UScalar \cup UArr
 UBig    == U \cup (IF Tier = "thorough" THEN UMore ELSE {})
 
 U6      == { Myst, Bool(TRUE), Bool(FALSE), IntV(0), IntV(2), Str("a"), Null, A1 }   \* for list operands
-UK      == { Myst, Null, Bool(TRUE), Bool(FALSE), IntV(0), IntV(1), IntV(2), IntV(3), NZero, Fin(32), IntV(-1),
+UK      == { Tiny(1, TinyText), Myst, Null, Bool(TRUE), Bool(FALSE), IntV(0), IntV(1), IntV(2), IntV(3), NZero, Fin(32), IntV(-1),
              NaN, PInf, Huge, Str("k"), Str(""), Str("0"), A1 }                       \* keys
 UV      == { Myst, Null, Bool(TRUE), IntV(5), Str(""), Str("ab"), Str("~b~"), EmptyArr, A1, A12, AA1, AD, Norm(ASD) }
 UX      == { Myst, IntV(7), Str("z"), A1 }                                            \* stored values
@@ -55,20 +56,22 @@ UJoin   == { EmptyArr, AS, Norm(ASD), A1, Arr(<<Str("a"), IntV(1)>>, <<>>), Arr(
              Arr(<<Str("a"), Str(""), Str("b")>>, <<>>), Arr(<<Str("x"), Str("-")>>, <<>>), Arr(<<Str("a,b"), Str("")>>, <<>>),
              Arr(<<Str("a")>>, <<[k |-> [k |-> "str", s |-> "k"], v |-> IntV(1)]>>), Str("a"), Myst, IntV(1) }
 UJDelim == { NoParam, Str(""), Str(","), Str("-"), IntV(1), Myst, A1 }
-UCastN  == { IntV(65), IntV(97), IntV(233), IntV(0), NZero, IntV(-1), Fin(4192), IntV(1114111), IntV(1114112),
+UCastN  == { Tiny(1, TinyText), Tiny(-1, TinyText), IntV(65), IntV(97), IntV(233), IntV(0), NZero, IntV(-1), Fin(4192), IntV(1114111), IntV(1114112),
              IntV(55295), IntV(55296), IntV(57343), IntV(57344), NaN, PInf, NInf, Huge, NHuge,
              Big(1, "2147483648"), Big(1, "4294967361"), Big(-1, "4294967230"), Big(1, "4294967296"),
              Big(1, "9223372036854776000") }
 UCastS  == { "", "0", "1", "11", "-11", "+11", "ff", "FF", "zz", "1.5", "-0", "12a", " 1", "1 ", "nan", "inf", "-inf",
-             "Infinity", "1e1", ".5", "5.", ".", "-", "+", "0.1", "1_0", "~", "99999999999", "123456789012345678901" }
+             "Infinity", "1e1", ".5", "5.", ".", "-", "+", "0.1", "1_0", "~", "99999999999", "123456789012345678901",
+             "0.0000000000000001", "-0.001", "0.00100", ".001" }
            \cup (IF Tier = "thorough" THEN { "10", "101", "z", "Z", "g", "-ff", "+-1", "--1", "1e2", "1e-1", "2.5e1", "1e", "e1", "0x10", "1,0", "NaN", "INF",
                                               "infinit", "+inf", "-nan", "0.5", "0.25", "0.125", "1.0", "-1.5", "007", "1 1", "2", "7", "9", "a", "A" } ELSE {})
 URadix  == { NoParam, IntV(2), IntV(10), IntV(16), IntV(36), IntV(37), IntV(1), IntV(0), IntV(-1), NZero, Fin(160),
-             NaN, PInf, Huge, Big(1, "4294967298"), Str("10"), Myst, Null, Bool(TRUE), A1 }
+             NaN, PInf, Huge, Big(1, "4294967298"), Str("10"), Myst, Null, Bool(TRUE), A1, Tiny(1, TinyText) }
            \cup (IF Tier = "thorough" THEN { IntV(3), IntV(8), IntV(11), IntV(35), IntV(38), IntV(100), NInf, Fin(128 + 1), Big(-1, "4294967294"), Bool(FALSE), EmptyArr, Str("") } ELSE {})
 UTurnMore == { Fin(n) : n \in {2, -2, 31, -31, 33, -33, 64 * 7 + 32, -(64 * 7 + 32), 64 * 1000 + 1, 64 * 16777215, -64 * 16777215 + 63} }
 UTurn   == (IF Tier = "thorough" THEN UTurnMore ELSE {}) \cup { IntV(0), NZero, IntV(1), IntV(-1), Fin(32), Fin(-32), Fin(96), Fin(-96), Fin(160), Fin(-160), Fin(16), Fin(-16),
              Fin(48), Fin(-48), Fin(1), Fin(-1), Fin(63), Fin(-63), NaN, PInf, NInf, Huge, NHuge,
+             Tiny(1, TinyText), Tiny(-1, TinyText), Tiny(1, "0.009"), Tiny(-1, "0.009"),
              Myst, Null, Bool(TRUE), Str("1"), A1 }
 
 NS == 16                 \* shards: Init picks (kind, shard), Next expands it, so that all workers enumerate
